@@ -19,6 +19,7 @@ func checkC06(p *Program, r *Report) {
 		"R3 nil equals only nil: in f the results of the two nil tests decide before anything else (both nil => true, exactly one => false). " +
 		"R4 two integers are compared as integers: in f the float64 comparison is reachable only when an operand is a float, the int64 comparison only when neither is. " +
 		"R5 a string equals a number only as a decimal numeral: every strconv.ParseInt that reads an operand uses base 10 (other bases only under a matching prefix test, never base 0).")
+	r.Explain("R6 also: the formatted-string comparison is unreachable in the world where both operands are floats of the same width.")
 	r.Assume("symmetry, the int/float/string coercion semantics and structural comparison of containers (reflect.DeepEqual) are value-level and not decided")
 	m, err := buildVMModel(p)
 	if err != nil {
@@ -242,6 +243,19 @@ func checkC06(p *Program, r *Report) {
 					}
 				}
 				r.Check(badW == "", "C06.R6", f.Name()+"|formatted-string comparison", p.Pos(bo.Pos()), "numbers are compared as formatted strings only when both are floats", "an integer and a float are compared as formatted strings "+badW+": 1000000 == 1000000.0 is false while <= and >= both hold")
+				// ... and only when the two floats are of different widths: two values of one type are compared by Go's ==
+				same := world(false, false)
+				for _, b2 := range f.Blocks {
+					for _, in2 := range b2.Instrs {
+						if kd, ok := in2.(*ssa.BinOp); ok && (kd.Op == token.EQL || kd.Op == token.NEQ) && kd.X.Type().String() == "reflect.Kind" && kd.Y.Type().String() == "reflect.Kind" {
+							if _, c := kd.Y.(*ssa.Const); !c && kd.X != kd.Y {
+								same[kd] = kd.Op == token.EQL
+							}
+						}
+					}
+				}
+				r.Check(!worldReach(f, same)[b], "C06.R6", f.Name()+"|formatted-string comparison|different widths only", p.Pos(bo.Pos()), "two floats of the same type never reach the formatted-string comparison",
+					"two floats of the same type are compared as formatted strings instead of by Go's ==: 0.0 == -0.0 is false (\"0\" vs \"-0\") and NaN equals itself")
 			}
 		}
 		r.Note("C06.R6 string comparisons in comparator", nStr)
